@@ -120,6 +120,13 @@ func cmdFunc(args []string) {
 				if o.Class == "CAND" {
 					en[o.Extra["cand"]] = true
 				}
+				if os.Getenv("GOVC_DUMP_ALL") != "" {
+					for id := range vc.eng.candEnable {
+						if vc.eng.candParent[id] == "" {
+							en[id] = true
+						}
+					}
+				}
 				os.WriteFile("/tmp/dump.smt2", []byte(vc.script(o, en, false)), 0o644)
 				fmt.Println("        dumped", o.Name, "to /tmp/dump.smt2")
 			}
